@@ -65,6 +65,23 @@ def enabled_ops(scfg, maxk: int):
                 ops.append(("insert_block", ty, P, S))
             ops.append(("insert_control", P, S))
             ops.append(("join_tails_and_exits", P, S))
+            # "whose successors are exactly S": S handed over in another order, and S with a member that no block of P jumps to
+            if len(S) >= 2:
+                ops.append(("insert_block", "tail", P, tuple(reversed(S))))
+                ops.append(("insert_control", P, tuple(reversed(S))))
+            if len(S) < maxk:
+                for e in keys:
+                    if e not in S and not any(e in G[p] for p in P):
+                        ops.append(("insert_block", "tail", P, S + (e,), "loose"))
+                        ops.append(("insert_control", P, (e,) + S, "loose"))
+                        break
+    # P without any arc into S (e.g. the same insertion requested a second time): the new block still has successors S
+    for s_ in allt[:2]:
+        for p_ in keys:
+            if s_ not in G[p_] and p_ != s_:
+                ops.append(("insert_block", "tail", (p_,), (s_,), "loose"))
+                ops.append(("insert_control", (p_,), (s_,), "loose"))
+                break
     exits = [k for k in keys if not G[k]]
     for P in subsets(exits, maxk):
         ops.append(("insert_block", "return", P, ()))
@@ -197,7 +214,7 @@ def apply_op(scfg, op, check=True):
                 raise Failure("other-arc-changed", f"join_returns changed {k!r}")
         return
     if kind == "insert_block":
-        _, ty, P, S = op
+        _, ty, P, S = op[:4]
         new = scfg.name_gen.new_block_name("synth_" + ty)
         scfg.insert_block(new, list(P), list(S), TYPES[ty])
         if type(scfg.graph.get(new)) is not TYPES[ty]:
@@ -205,7 +222,7 @@ def apply_op(scfg, op, check=True):
         compare_insert(before, scfg, new, P, S, ident, control=False)
         return
     if kind == "insert_control":
-        _, P, S = op
+        _, P, S = op[:3]
         new = scfg.name_gen.new_block_name("synth_head")
         scfg.insert_block_and_control_blocks(new, list(P), list(S))
         compare_insert(before, scfg, new, P, S, ident, control=True)
@@ -294,6 +311,11 @@ def explore(g, pre, depth, maxk, acc: Acc, fam):
                 et, site = exc_fingerprint(e)
                 acc.viol(PROP, f"{PROP}/raises/{et}", f"after {list(history)} on {g}: {op} raised {et}: {e} at {site}", (g, pre, h2), site=site,
                          case=_case(g, pre, h2))
+                continue
+            if op[-1] == "loose":
+                # S has members that no block of P jumps to: only the clauses about the new block and the touched arcs apply; the
+                # resulting graph (a new block nobody reaches, or a head successor without a table value) is not explored further
+                acc.counters["loose_insertions_checked"] += 1
                 continue
             if path_preserving(h2):
                 r = product(G0, entry_name(), Hier(nxt), "name", max_violations=1)
